@@ -117,6 +117,15 @@ Qed.
 Lemma h_weak_pre : forall A (m : M A) b Q, hoare (ST false) m Q -> hoare (ST b) m Q.
 Proof. intros A m b Q H. eapply hoare_pre; [exact H|]. intros w Hw. exact (St_weaken _ _ _ _ Hw). Qed.
 
+Lemma h_close_dir : forall b, hoare (ST b) close_dir (fun _ => ST b).
+Proof.
+  intros b. unfold close_dir. hb (h_fs_void S ev0 FClosedir b (or_intror eq_refl) I).
+  apply h_modify. reflexivity.
+Qed.
+
+Lemma h_mark_dir_open : forall b, hoare (ST b) mark_dir_open (fun _ => ST b).
+Proof. intros b. unfold mark_dir_open. apply h_modify. reflexivity. Qed.
+
 Lemma h_send_chunk : hoare (ST true) (send_chunk cfg) (fun _ => ST false).
 Proof.
   unfold send_chunk. eapply hoare_bind with (R := fun _ => ST true).
@@ -151,7 +160,7 @@ Proof.
       * apply IH; auto.
       * destruct (hidden n); [apply IH; auto|].
         hbn h_send_msg_T r. destruct r; cbn [negb]; [apply IH; auto|].
-        hb (h_fs_void S ev0 FClosedir false (or_intror eq_refl) I). hweak.
+        hb h_close_dir. hweak.
     + hweak.
 Qed.
 
@@ -166,16 +175,16 @@ Proof.
   assert (Hp : translated cfg names path). { eapply tr_in; eauto. }
   hbn (h_call (FOpendir path) Hp eq_refl) d.
   destruct d as [[| | | | | | |]|]; try apply h_err.
-  - hbn h_send_msg_T r. destruct r; cbn [negb].
+  - hb h_mark_dir_open. hbn h_send_msg_T r. destruct r; cbn [negb].
     2:{ eapply hoare_bind with (R := fun _ => ST false); [|intros ?; hweak].
-        destruct (fix_f7b cfg); [apply (h_fs_void S ev0 FClosedir false (or_intror eq_refl) I)|apply h_modify; reflexivity]. }
+        destruct (fix_f7b cfg); [apply h_close_dir|apply h_modify; reflexivity]. }
     eapply hoare_bind with (R := fun _ => ST true).
     { apply h_quiet. intros w. simpl. auto. }
     intros fuel. hbn (h_dir_loop (Datatypes.S fuel) path Hp) l.
     destruct l; cbn [negb]; [|hweak].
     (* after a complete listing the connection state is not known to the invariant: closedir, then
        the end-of-listing message, which checks the socket itself *)
-    hb (h_fs_void S ev0 FClosedir false (or_intror eq_refl) I).
+    hb h_close_dir.
     apply h_send_F.
   - apply h_send.
 Qed.
